@@ -91,6 +91,34 @@ func c30Determinism() *explore.Scenario {
 			if s2, err := tls.VerifSaltedSeed(seed, "ALPS"); err != nil || s2 == seed || (i < 256 && *seed != *seedN(i)) {
 				r.Violate("C30|seed-object-mutated|salted", "seed %d: newSaltedPRNGSeed returned its argument or modified it (err %v)", i, err)
 			}
+			// the salted seed is a function of the seed's VALUE: one seed object refilled in place (a caller
+			// re-randomising ClientHelloID.Seed between dials) gives what a fresh object with that value gives
+			{
+				reused := *seedN(i)
+				before, e0 := tls.VerifSaltedSeed(&reused, "ALPS")
+				reused = *seedN(i + 1)
+				after, e1 := tls.VerifSaltedSeed(&reused, "ALPS")
+				fresh, e2 := tls.VerifSaltedSeed(seedN(i+1), "ALPS")
+				again, e3 := tls.VerifSaltedSeed(seedN(i), "ALPS")
+				if e0 != nil || e1 != nil || e2 != nil || e3 != nil {
+					r.Violate("C30|salt|error", "seed %d: %v %v %v %v", i, e0, e1, e2, e3)
+				} else {
+					if *after != *fresh {
+						r.Violate("C30|salt|stale-after-refill", "seed %d: a seed object refilled in place with seed %d's value gives another salted seed than a fresh object with that value", i, i+1)
+					}
+					if *before != *again {
+						r.Violate("C30|salt|nondeterministic", "seed %d: the salted seed differs between two objects with the same value", i)
+					}
+					p1, _ := tls.VerifNewPRNG(&reused, strp("ALPS"))
+					p2, _ := tls.VerifNewPRNG(seedN(i+1), strp("ALPS"))
+					a, b := make([]byte, 16), make([]byte, 16)
+					p1.Read(a)
+					p2.Read(b)
+					if !bytes.Equal(a, b) {
+						r.Violate("C30|salt|stale-after-refill|stream", "seed %d: salted stream of a refilled seed object differs from that of a fresh one", i)
+					}
+				}
+			}
 			// different seeds give different streams
 			o, _ := tls.VerifNewPRNG(seedN(i+1), nil)
 			bo := make([]byte, 32)
@@ -389,3 +417,5 @@ func init() {
 			c.Extra["function_evaluations"] = c.Total.Counters["function_evaluations"]
 		}})
 }
+
+func strp(s string) *string { return &s }
